@@ -253,6 +253,14 @@ func genCase(r *vh.Rand, id string, size int) string {
 			switch {
 			case g.kind != "reg" && r.Chance(1, 3):
 				g.ops = append(g.ops, g.saveInTaskOp())
+			case g.kind != "reg" && r.Chance(1, 6):
+				f := strings.Fields(g.saveOp())
+				kd := f[1]
+				if g.kind == "disk" {
+					kd = "x"
+				}
+				g.sessionEntry()
+				g.ops = append(g.ops, fmt.Sprintf("N %s %s %s %s", kd, f[2], f[3], f[4]))
 			case g.kind == "disk" && r.Chance(1, 6):
 				g.midTaskScenario()
 			case r.Chance(1, 4):
@@ -276,7 +284,11 @@ func genCase(r *vh.Rand, id string, size int) string {
 				}
 			}
 		case x < 96:
-			g.ops = append(g.ops, "L")
+			if r.Chance(1, 3) {
+				g.ops = append(g.ops, "O")
+			} else {
+				g.ops = append(g.ops, "L")
+			}
 		case x < 99:
 			if r.Chance(1, 7) {
 				// power failures while a follower receives and installs B's snapshot
